@@ -104,3 +104,10 @@
 (declare-fun strByte (String Int) Int)
 (declare-fun byteSub (String Int Int) String)
 (define-fun isAscii ((s String)) Bool (str.in_re s (re.* (re.range "\u{0}" "\u{7f}"))))
+; a json.Decoder over a text: the k-th Decode call (assumed deterministic in configuration, text and k)
+(declare-const codecJSONdec Int)
+(declare-fun cfg_UseNumber (Int) Int)
+(declare-fun decV (Int String Int) Val)
+(declare-fun decE (Int String Int) ErrV)
+(declare-fun decCount (Int String) Int)   ; the number of values before the first failing Decode (io.EOF or a real error)
+(declare-const ioEOF ErrV)
